@@ -11,7 +11,7 @@ LEVEL = 'model_checking'
 BUDGET_S = {'quick': 90, 'thorough': 600}
 BOUNDS = {
     'quick': 'edges: arguments into subbuild/build_file callee; value returned by subbuild/build_file fresh and served from '
-             'cache, at root level and inside a caching parent; list_dir and walk results; one container object occurring several times '
+             'cache, at root level and inside a caching parent; list_dir and walk (top-down and bottom-up) results; one container object occurring several times '
              'inside the arguments or the returned value; in-place mutations append / pop / '
              'clear / nested set-item / nested append on a value [i, [j], {"k": [m]}] with symbolic integer leaves; histories of '
              '3 builds (unchanged rebuilds) and B.B.M.B for query results (tree of in/, in/x, in/y symbolic)',
@@ -64,6 +64,9 @@ def harness(eng, fam, P):
     from file_builder import FileBuilder
     how = MUTS[eng.choose('mut', len(MUTS))]
     x = eng.fresh_int('x')
+    # walk: both traversal orders (the user edits the lists it gets either way)
+    top_down = bool(eng.choose('top_down', 2)) if fam == 'walk' else True
+    eng.path_info['top_down'] = top_down
     i, j, m = eng.fresh_int('i'), eng.fresh_int('j'), eng.fresh_int('m')
     w = World(eng, ['in', 'in/x', 'in/y'], fixed={'o': 'D'}, sandbox=getattr(eng, 'sandbox', None))
     eng.path_info.update({'edge': fam, 'mutation': how})
@@ -129,7 +132,7 @@ def harness(eng, fam, P):
                 r.pop()
             r.append('ghost')
         else:
-            r = b.walk(w.p('in'))
+            r = b.walk(w.p('in'), top_down)
             snap = [[d, list(sd), list(sf)] for d, sd, sf in r]
             for d, sd, sf in r:
                 del sd[:]                   # pruning walk's subdirectory lists
@@ -202,7 +205,8 @@ def harness(eng, fam, P):
                 if fam == 'list_dir':
                     ok = got == names
                 else:
-                    ok = (got == []) if names is None else (len(got) >= 1 and sorted(got[0][1] + got[0][2]) == names)
+                    top = got[0 if top_down else -1] if got else None     # the entry of in/ itself comes first (top-down) or last
+                    ok = (got == []) if names is None else (top is not None and top[0] == w.p('in') and sorted(top[1] + top[2]) == names)
                 eng.check('C11.query-result-stale-or-corrupted', ok, sig + ('build%d' % (k + 1),),
                           info={'returned': got, 'directory now': names, 'build': k + 1})
                 if 0 < k < nb - 1:
